@@ -196,20 +196,21 @@ theorem sumVars_Q_anc (hM : M.Compatible G) (hrank : G.Ranked) (A H topo : List 
 theorem lemma1_sound (hM : M.Compatible G) (hG : G.WF) (hrank : G.Ranked) (σ' : Val)
     (H : List Name) (hnd : H.Nodup) (hsub : ∀ v ∈ H, v ∈ G.nodes) (htopo : TopoOrdered G H)
     (D : List Name) (hDnd : D.Nodup) (hDH : ∀ v ∈ D, v ∈ H) (hclosed : BiClosedIn G D H)
-    (pop : Option Var) (ch pa : List Var) (e : Expr) (hshape : ProbShape G.nodes (.prob pop ch pa) H)
+    (pop : Option Var) (ch pa : List Var) (e : Expr) (hshape : ProbShape (.prob pop ch pa) H)
     (hq : ∀ σ, den (M.env G) σ' (.prob pop ch pa) σ = M.Q H σ)
     (h : lemma1 D (.prob pop ch pa) H = .ok e) (σ : Val) : den (M.env G) σ' e σ = M.Q D σ := by
   rw [TianLemma1.den_lemma1 hM hG σ' hshape hnd hsub h σ (qRatio M H σ)
     (fun v p s e => qRatio_eq_ratio hM hrank σ' H hnd hsub _ hq σ v p s e)]
   exact qRatio_prod hM hG hrank H hnd hsub htopo D hDnd hDH hclosed σ
 
-theorem probShape_congr {nodes : List Name} {q : Expr} {H H' : List Name} (hp : H.Perm H')
-    (h : ProbShape nodes q H) : ProbShape nodes q H' := by
+theorem probShape_congr {q : Expr} {H H' : List Name} (hp : H.Perm H')
+    (h : ProbShape q H) : ProbShape q H' := by
   cases q with
   | prob pop ch pa =>
-    obtain ⟨w, h1, h2, h3, h4⟩ := h
-    exact ⟨w, h1.trans hp, h2, fun i hi => ⟨(h3 i hi).1, fun hm => (h3 i hi).2.1 (hp.mem_iff.mpr hm), (h3 i hi).2.2⟩,
-      fun p hp' => ⟨fun hm => (h4 p hp').1 (hp.mem_iff.mpr hm), (h4 p hp').2⟩⟩
+    obtain ⟨w, h1, h1', h2, h3, h4⟩ := h
+    exact ⟨w, fun x hx => h1 x (hp.mem_iff.mpr hx),
+      fun c hc => (h1' c hc).imp (fun hm => hp.mem_iff.mp hm) id, h2, fun i hi => ⟨(h3 i hi).1, fun hm => (h3 i hi).2 (hp.mem_iff.mpr hm)⟩,
+      fun p hp' => fun hm => (h4 p hp') (hp.mem_iff.mpr hm)⟩
   | _ => trivial
 
 /-- **`compute_c_factor` is sound**, whichever lemma the type of the expression selects -/
@@ -218,7 +219,7 @@ theorem computeCFactor_sound (hM : M.Compatible G) (hG : G.WF) (hrank : G.Ranked
     (hsub : ∀ v ∈ topo.filter (· ∈ S), v ∈ G.nodes)
     (D : List Name) (hDnd : D.Nodup) (hDH : ∀ v ∈ D, v ∈ topo.filter (· ∈ S))
     (hclosed : BiClosedIn G D (topo.filter (· ∈ S)))
-    (q e : Expr) (hshape : ProbShape G.nodes q (topo.filter (· ∈ S)))
+    (q e : Expr) (hshape : ProbShape q (topo.filter (· ∈ S)))
     (hq : ∀ σ, den (M.env G) σ' q σ = M.Q (topo.filter (· ∈ S)) σ)
     (h : computeCFactor D S q topo = .ok e) (σ : Val) : den (M.env G) σ' e σ = M.Q D σ := by
   unfold computeCFactor at h
